@@ -45,8 +45,9 @@ CONSTANTS WithArg,      \* TRUE: generator<int,int>, FALSE: generator<int>
           MaxAfterEnd,  \* bound on accesses made after the first end/exception indication
           EarlyDestroy, \* TRUE: the generator may be destroyed at every parked point
           Threaded,     \* see above
-          PostIncMoves  \* TRUE: generator_iterator::operator++(int) moves the current item out of the yielded object
-                        \* (iterator.h:61, the code as it is); FALSE: it copies it (repaired)
+          PostIncMoves  \* FALSE: generator_iterator::operator++(int) copies the current item (the code since 97856c3);
+                        \* TRUE: it moves it out of the yielded object (the code before: known finding
+                        \* iterator_postincrement_moves_item) -- PayloadIntact is then violated
 
 ASSUME WithArg => Styles \cap {"begin", "inc", "postinc"} = {}   \* begin() calls next() without argument: static_assert
 ASSUME ~WithArg => "ynull" \notin BodyKinds
@@ -373,14 +374,18 @@ SameSequence ==
     \* a post-increment hands out the value that was current before it advanced
     /\ \A i \in 2..Len(obs) : cscript[i] = "postinc" => obs[i].p = obs[i-1].v
 
-(* the yielded OBJECTS: the library itself never moves from or modifies what the body yielded -- a consumer reading
-   through next()/value(), *it, range-for or co_await next() works on the object itself, gen() resolves its future with
-   exactly one COPY -- with the one exception the code has: it++ (PostIncMoves) moves the item out, and if the body
-   yielded its own variable that variable is gutted *)
+(* the yielded OBJECTS (copyable value type): the library never moves from or modifies what the body yielded.  A consumer
+   reading through next()/value(), *it, range-for or co_await next() works on the object itself; gen() resolves its
+   future with exactly one COPY (also of a temporary and of co_yield std::move(var): the item stays visible through
+   value(), so both views of an item agree); it++ hands out a COPY (iterator.h:60-72 since 97856c3; with a value type
+   that cannot be copied it++ moves the item out -- the documented exception, not exercised here).  Hence the body's
+   own variable is intact after co_yield var / co_yield std::move(var) in every access form.
+   PostIncMoves = TRUE is the code before 97856c3: TLC then reports this invariant violated (kept as a self-test). *)
 PayloadIntact ==
-    /\ pay.moved => (PostIncMoves /\ \E i \in 1..Len(cscript) : cscript[i] = "postinc")
-    /\ pay.mv = IF PostIncMoves THEN Cardinality({i \in 1..Len(cscript) : cscript[i] = "postinc"}) ELSE 0
-    /\ pay.cp <= Len(cscript)
+    /\ ~pay.moved
+    /\ pay.mv = 0
+    /\ pay.cp = Cardinality({i \in 1..Len(obs) : cscript[i] = "future" /\ obs[i].r = "val"})
+                + Cardinality({i \in 1..Len(cscript) : cscript[i] = "postinc"})
 
 (* after the body returned: the access during which it returned reports the end, every access
    before it reported a value, every later one reports the end again (next()/co_await: false,
